@@ -51,7 +51,9 @@ def gen_text(rng):
 
 def all_entities_doc():
     import html.entities as ents
-    return "".join("&%s;x" % n for n in sorted(ents.entitydefs)) + "&#1;&#x1;&#1114111;&#x10ffff;&#x10FFFF;&#55296;&#xDFFF;&#0;&#1114112;&#x110000;&#00065;"
+    return ("".join("&%s;x" % n for n in sorted(ents.entitydefs)) + "&#1;&#x1;&#1114111;&#x10ffff;&#x10FFFF;&#55296;&#xDFFF;&#0;&#1114112;&#x110000;&#00065;" +
+            # not entities (they must stay text with either tokenizer): hex letters in a decimal reference, other stray characters
+            "&#6B;y&#1a;y&#10F;y&#12abc;y&#x1G;y&#xg;y&#0x41;y&# 65;y&#+65;y&#6\uff15;y&#;y&#x;y&amp y&#65 y&thetasymx;y&Amp;y&AMP;y&apos;y&check;y&#X41;y&#X3a3;")
 
 
 def long_entities_doc():
@@ -64,11 +66,14 @@ def long_entities_doc():
 def parse_case(seed):
     st = tokharness.setup()
     rng = random.Random(seed)
-    text = all_entities_doc() if seed % 5000 == 0 else (long_entities_doc() if seed % 5000 == 1 else gen_text(rng))
+    special = {0: "py", 1: "py", 2: "c", 3: "c"}.get(seed % 5000)         # the two fixed documents, once with each tokenizer
+    text = all_entities_doc() if seed % 5000 in (0, 2) else (long_entities_doc() if seed % 5000 in (1, 3) else gen_text(rng))
     text = text.replace("\ud800", "").replace("\udfff", "")
     which = "c" if (st["c"] is not None and rng.random() < 0.3) else "py"
+    if special is not None and (special == "py" or st["c"] is not None):
+        which = special
     toks = st[which]().tokenize(text, 0, rng.random() < 0.2)
     # the extracted model is quadratic in the length of one text run: the 4400-digit entities are oracle-only
-    enc = None if seed % 5000 == 1 else buildcorr.encode_tokens(toks)
+    enc = None if seed % 5000 in (1, 3) else buildcorr.encode_tokens(toks)
     code = st["builder"]().build(toks)
     return text, enc, code
